@@ -421,8 +421,9 @@ MANIFEST_TEXT = {
         technique="call-site keyword forwarding rule, placement-depth vs resolver-depth comparison, mutation analysis",
     ),
     "C18": dict(
-        level="Decides that add_schema leaves the added schema and root untouched and unshared, adds exactly one re-rooted rule per rule, re-sorts, and that path concatenation goes through the constructor.",
-        note="condition / cast / doc objects of the added rules are shared by design (immutable by C08)",
+        level="Decides that add_schema leaves the added schema and root untouched and unshared, adds exactly one re-rooted rule per rule, re-sorts, and that path concatenation goes through the constructor and keeps the appended path's modifiers. "
+              "One known finding (F36: data-path arguments of the added rules' conditions are not re-rooted) is listed.",
+        note="condition / cast / doc objects of the added rules are shared by design (immutable by C08); F36 is recorded in known_findings.json",
         technique="mutation + container-aliasing analysis of add_schema; append-counting and sort-binding rules",
     ),
     "C01": dict(
@@ -476,8 +477,9 @@ MANIFEST_TEXT = {
     ),
     "C19": dict(
         level="Over-approximation, for every spec structure at once, of the exception classes that can escape the parsers; plus whitelisting of all spec-driven reflection. "
-              "Decides the 'never an internal error' half and the 'unknown / surplus names are rejected' part of the other half; does not decide that every definite arity/shape error is rejected.",
-        note="trusts the operator->exception table for JSON-like operands (access kinds not in the table are not checked), and the finite evaluation of the constant whitelisting tables",
+              "Decides the 'never an internal error' half and the 'unknown / surplus names are rejected' part of the other half (unknown part arguments, swallowed malformed paths, ignored arguments); does not decide that every definite arity/shape error is rejected. "
+              "One known finding (F37: an argument for a callable without parameters is ignored with a warning) is listed.",
+        note="trusts the operator->exception table for JSON-like operands (access kinds not in the table are not checked), and the finite evaluation of the constant whitelisting tables; F37 is recorded in known_findings.json",
         technique="static exception-effect analysis with spec taint (abstract interpretation) + reflection whitelisting by constant-table evaluation",
     ),
 }
